@@ -163,7 +163,7 @@ end
 	apis := map[string]interface{}{"probe8": probe8, "probe6": probe6, "Cur": cur, "probe4": probe4, "probe5": probe5,
 		"pickdouble": func() func(int64) int64 { return func(x int64) int64 { return 2 * x } },
 		"picktriple": func() func(int64) int64 { return func(x int64) int64 { return 3 * x } },
-		"once": once, "probe": probe, "hold": hold, "probe2": probe2, "probe3": probe3, "Shared": shared,
+		"once":       once, "probe": probe, "hold": hold, "probe2": probe2, "probe3": probe3, "Shared": shared,
 		"off": func() bool { return false }, "nothing": func() {}}
 	dc := context.NewDataContext()
 	for n, v := range apis {
